@@ -137,11 +137,13 @@ def _observe_lanes(drv, rows):
                             ("lane1-arr", lambda n: lane(n, 1), arr),
                             ("arr-lane0s", arr, lambda n: lane(n, 0, "s")),
                             ("lane3s-lane0d", lambda n: lane(n, 3, "s"), lambda n: lane(n, 0))):
+        side_b = {b: (mk_b(b) if b in vnames else plain[b]) for b in names}   # parsed once per name
         for a in vnames:
             deps, err = [], None
+            op_a = mk_a(a)
             for b in names:
                 try:
-                    if drv.dep(mk_a(a), mk_b(b) if b in vnames else plain[b]):
+                    if drv.dep(op_a, side_b[b]):
                         deps.append(b)
                 except Exception as e:  # a crash is not an allowed outcome
                     err = "%s: %s" % (type(e).__name__, e)
